@@ -211,7 +211,9 @@ func (fr *frame) concretize(t *smt.Term, max int, what string) int64 {
 		conds[k] = c.Eq(t, c.Int64(int64(k)))
 	}
 	conds[max+1] = c.Or(c.Gt(t, c.Int64(int64(max))), c.Lt(t, c.Int64(0)))
+	fr.i.eng.exactNext = true
 	k := fr.i.eng.choose(max+2, conds, what)
+	fr.i.eng.exactNext = false
 	if k == max+1 {
 		panic(abortPath{"unwind", fmt.Sprintf("%s: value outside unrolling bound 0..%d is feasible", what, max)})
 	}
